@@ -871,10 +871,18 @@ func DeleteVirtualTable(tname *string, orgid int64) error {
 	if err := scanner.Err(); err != nil {
 		return utils.TeeErrorf("DeleteVirtualTable : Error while scanning file: %v, err: %v", vTableFileName, err)
 	}
-	errW := os.WriteFile(vTableFileName, []byte(store), 0644)
+	// Write the new list to a temporary file and rename it over the old one: a crash while
+	// the list is being rewritten must not lose the names of the remaining indexes.
+	tmpFileName := vTableFileName + ".tmp"
+	errW := os.WriteFile(tmpFileName, []byte(store), 0644)
 	if errW != nil {
-		log.Errorf("DeleteVirtualTable : Error writing to vtableFilename=%v, Error=%v", vTableFileName, errW)
+		log.Errorf("DeleteVirtualTable : Error writing to tmp vtableFilename=%v, Error=%v", tmpFileName, errW)
 		return errW
+	}
+	errR := os.Rename(tmpFileName, vTableFileName)
+	if errR != nil {
+		log.Errorf("DeleteVirtualTable : Error renaming %v to %v, Error=%v", tmpFileName, vTableFileName, errR)
+		return errR
 	}
 
 	// forget the name in memory as well: otherwise an index created again under this name is never
